@@ -205,7 +205,7 @@ impl Strategy for Solo {
         }
         if self.frozen {
             if let Some(tg) = self.done_target {
-                if pt.ops_done[self.t] < tg && pt.runnable.contains(&self.t) {
+                if pt.ops_done[self.t] < tg && pt.runnable.contains(&self.t) && self.solo_steps < 3000 {
                     self.solo_steps += 1;
                     return self.t;
                 }
@@ -213,6 +213,9 @@ impl Strategy for Solo {
             self.done_target = None;
         }
         self.base.pick(pt)
+    }
+    fn summary(&self) -> Value {
+        serde_json::json!({"segments": 0, "reached": 0, "missed": 0, "first_missed": -1, "solo_max": self.solo_steps})
     }
     fn spurious(&mut self, p: &Point) -> bool {
         if self.frozen && self.done_target.is_some() {
@@ -376,7 +379,7 @@ impl Strategy for Until {
         }
     }
     fn summary(&self) -> Value {
-        serde_json::json!({"segments": self.segs.len(), "reached": self.reached, "missed": self.missed, "first_missed": self.first_missed})
+        serde_json::json!({"segments": self.segs.len(), "reached": self.reached, "missed": self.missed, "first_missed": self.first_missed, "solo_max": 0})
     }
 }
 
